@@ -510,6 +510,8 @@ def call_type(I, t: VType, args, kwargs):
         return I.new_set(I.iterate(args[0]) if args else [])
     if n == "dict":
         d = I.new_dict()
+        if args and isinstance(args[0], VRef) and I.hobj(args[0]).kind == "symdict":
+            return new_symdict(I, list(I.hobj(args[0]).items))
         if args:
             I.dict_update(d, args[0])
         for k, v in kwargs.items():
